@@ -347,8 +347,8 @@ pub fn permutations(items: &[usize]) -> Vec<Vec<usize>> {
 }
 
 fn size4_scope(subset: &[usize]) -> bool {
-    const CORE: usize = 14;
-    const PAIRS: [(usize, usize); 3] = [(14, 15), (16, 17), (18, 19)];
+    const CORE: usize = 16;
+    const PAIRS: [(usize, usize); 2] = [(16, 17), (18, 19)];
     if subset.iter().all(|&i| i < CORE) {
         return true;
     }
@@ -360,7 +360,7 @@ pub fn exhaustive_cases(max_size: usize, every_step: bool) -> Vec<Case> {
     let mut cases = Vec::new();
     for k in 1..=max_size {
         for subset in combos(CURATED.len(), k) {
-            // size 4 is enumerated over the first 14 patterns, plus each later pair (added for one specific interaction)
+            // size 4 is enumerated over the first 16 patterns, plus each later pair (added for one specific interaction)
             // with two of the first ten: the full C(20,4) x 24 x 16 x 2 = 3.7 M histories cost CPU-days for little more
             if k == 4 && !size4_scope(&subset) {
                 continue;
@@ -423,7 +423,7 @@ pub fn run(ctx: &Ctx) -> Report {
         "case = history over insert(p,id,v) / remove(id) / retain(pred) / cache(limit,level) on RegexTreeMap and UniqueRegexTreeMap in both case modes, patterns produced from templates exactly as rules produce them \
          (escaped literal text interleaved with (?:marker expr), incl. multi-byte text, escaped parentheses and a non-compiling marker); oracle after every step: sorted find(s) == sorted { v | (p,id,v) live and ^p$ matches s } over instantiations / near misses / case swaps, \
          len() == |live|, get(p) == values stored under p, iter() == all live values, remove(id) returns the stored value, and through the read-only hook the prefix invariant: every node prefix is a string prefix of all patterns below it (other shape facts are only recorded); \
-         exhaustive part: every subset of size <=3 (quick) of the curated patterns, thorough also those of size 4 over the first 14 patterns and each later pair with two of the first ten, x every insertion order x every removal subset x both case modes, followed by a re-insertion and a replacement; \
+         exhaustive part: every subset of size <=3 (quick) of the curated patterns, thorough also those of size 4 over the first 16 patterns and each later pair with two of the first ten, x every insertion order x every removal subset x both case modes, followed by a re-insertion and a replacement; \
          non-trivial = tree depth >= 2 and some haystack matched by some but not all live values; distinct by case hash",
     );
     rep.assume("domain exclusions O1 (empty pattern) and O2 (parenthesis inside a character class); ids are unique among live values, as rule ids are");
